@@ -20,8 +20,8 @@ class Slave:
 
     @staticmethod
     def _datetime_to_time(date):
-        answer = chr(int(str(date.year)[:2]))
-        answer += chr(int(str(date.year)[2:]))
+        answer = chr(date.year // 100)
+        answer += chr(date.year % 100)
         answer += chr(int(str(date.month)))
         answer += chr(int(str(date.day)))
         answer += chr(int(str(date.hour)))
